@@ -162,10 +162,5 @@ func splice(frame []byte, off int, muts []decBuf) []decBuf {
 		decBuf{"trunc_1", append([]byte(nil), frame[:n-1]...)},
 		decBuf{"trunc_half", append([]byte(nil), frame[:n/2]...)},
 		decBuf{"long_1", append(append([]byte(nil), frame...), 1)})
-	if n >= 4 { // a length prefix that promises more than there is
-		b := append([]byte(nil), frame...)
-		b[3]++
-		r = append(r, decBuf{"len_plus_1", b})
-	}
 	return r
 }
